@@ -20,7 +20,7 @@ def fl(x):
     return repr(float(x))
 
 
-def float_probes(r, rnd):
+def float_probes(r, rnd, extra=0):
     lo, hi = float(r['min']), float(r['max'])
     # next double outside the bound (around 0 the neighbours are denormals with 324-digit rationals: 2^-60 instead)
     below = math.nextafter(lo, -math.inf) if lo != 0 else -2.0 ** -60
@@ -31,13 +31,21 @@ def float_probes(r, rnd):
         u = rnd.randint(1, 999) / 1000.0
         x = lo + (hi - lo) * u
         out.append(('inside', float(f'{x:.6g}') if lo <= float(f'{x:.6g}') <= hi else x))
+    for _ in range(extra):                     # thorough tier: random values inside and outside
+        u = rnd.random()
+        if lo < hi:
+            out.append(('inside', lo + (hi - lo) * u))
+        span = (hi - lo) if hi > lo else 1.0
+        out += [('far-below', lo - span * (u + 1e-6) * rnd.choice([1e-9, 1e-3, 1.0, 1e3])),
+                ('far-above', hi + span * (u + 1e-6) * rnd.choice([1e-9, 1e-3, 1.0, 1e3]))]
+    out = [(t, x) for t, x in out if math.isfinite(x) and (t not in ('far-below', 'below-min') or x < lo) and (t not in ('far-above', 'above-max') or x > hi)]
     for tag in ('default', 'value'):
         if r[tag] is not None:
             out.append(('sentinel-' + tag, float(r[tag])))
     return [(t, fl(x), Fraction(float(fl(x)))) for t, x in out]
 
 
-def int_probes(r, rnd):
+def int_probes(r, rnd, extra=0):
     runs = r['runs']
     out = []
     if not runs:
@@ -56,6 +64,14 @@ def int_probes(r, rnd):
         out.append(('fraction', f'{hi}.5'))                              # just above max, truncates to max
     if lo <= 0:
         out.append(('fraction', f'{lo}.5' if lo < 0 else '-0.5'))        # just below min, truncates to min
+    for _ in range(extra):                     # thorough tier: random members, neighbours and fractions
+        a, b = rnd.choice(runs)
+        n = rnd.randint(a, min(b, a + 10 ** 6))
+        out.append(('member' if n not in special else 'sentinel-default', str(n)))
+        k = rnd.choice([lo - rnd.randint(1, 50), hi + rnd.randint(1, 50)])
+        out.append(('far-below' if k < lo else 'far-above', str(k)))
+        if n not in special:
+            out.append(('fraction', f'{n}.{rnd.randint(1, 99):02d}'.rstrip('0')))
     for tag in ('default', 'value'):
         if r[tag] is not None:
             x = r[tag]
@@ -63,8 +79,8 @@ def int_probes(r, rnd):
     return [(t, s, Fraction(float(s))) for t, s in out]
 
 
-def probes(r, rnd):
-    return float_probes(r, rnd) if r['kind'] == 'KFloat' else int_probes(r, rnd) if r['kind'] == 'KInt' else []
+def probes(r, rnd, extra=0):
+    return float_probes(r, rnd, extra) if r['kind'] == 'KFloat' else int_probes(r, rnd, extra) if r['kind'] == 'KInt' else []
 
 
 def used_value(val):
